@@ -680,6 +680,140 @@ impl Stream for TypePositions
 	}
 }
 
+/// every type term of nesting depth <= 3 over {[2]T, []T, [..]T, &T} and five
+/// base types, in variable, member and parameter position, against the rule
+/// of docs/errors.md E350: `[N]T`, `[]T` (and `[..]T`) need an element type of
+/// compile-time known size, which `[]T` and `[..]T` do not have; `&T` does
+struct TypeTerms;
+const WRAPPERS: &[&str] = &["[2]", "[]", "[..]", "&"];
+const BASES: &[&str] = &["i32", "u8", "bool", "S", "W"];
+impl TypeTerms
+{
+	/// wrappers from the outside in
+	fn term(idx: u64) -> (Vec<&'static str>, &'static str, usize)
+	{
+		let position = (idx % 3) as usize;
+		let mut i = idx / 3;
+		let base = BASES[(i % BASES.len() as u64) as usize];
+		i /= BASES.len() as u64;
+		// i in 0..(1+4+16+64): depth then digits
+		let mut depth = 0;
+		let mut block = 1u64;
+		while i >= block
+		{
+			i -= block;
+			depth += 1;
+			block *= 4;
+		}
+		let mut w = Vec::new();
+		for _ in 0..depth
+		{
+			w.push(WRAPPERS[(i % 4) as usize]);
+			i /= 4;
+		}
+		(w, base, position)
+	}
+	/// (valid, sized) by the documented rule
+	fn model(wrappers: &[&str]) -> (bool, bool)
+	{
+		let (mut valid, mut sized) = (true, true);
+		for w in wrappers.iter().rev()
+		{
+			match *w
+			{
+				"&" => sized = true,
+				"[2]" =>
+				{
+					valid = valid && sized;
+					sized = true;
+				}
+				_ =>
+				{
+					valid = valid && sized;
+					sized = false;
+				}
+			}
+		}
+		(valid, sized)
+	}
+}
+impl Stream for TypeTerms
+{
+	fn name(&self) -> String
+	{
+		"type-terms".into()
+	}
+	fn count(&self, _tier: Tier) -> u64
+	{
+		3 * BASES.len() as u64 * (1 + 4 + 16 + 64)
+	}
+	fn exhaustive(&self) -> bool
+	{
+		true
+	}
+	fn stride(&self) -> u64
+	{
+		16
+	}
+	fn run(&self, idx: u64, _c: &mut Choices, ctx: &RunCtx) -> CaseOut
+	{
+		let mut out = CaseOut::default();
+		let (wrappers, base, position) = Self::term(idx);
+		let ty = format!("{}{}", wrappers.concat(), base);
+		let shape = format!("{}T", wrappers.concat());
+		let (valid, _sized) = Self::model(&wrappers);
+		let pre = "struct S\n{\n\ta: i32,\n}\n\nword32 W\n{\n\tw: i32,\n}\n\n";
+		let (what, src) = match position
+		{
+			0 => ("var", format!("{pre}fn f()\n{{\n\tvar x: {ty};\n}}\n")),
+			1 => ("struct-member", format!("{pre}struct T\n{{\n\tm: {ty},\n}}\n")),
+			_ => ("param", format!("{pre}fn f(x: {ty})\n{{\n}}\n")),
+		};
+		out.key = idx;
+		out.nontrivial = wrappers.len() >= 2;
+		out.class(format!("term:{}", if valid { "valid" } else { "invalid" }));
+		// accepted for certain: sized chains of [N] and & (and & on top for parameters)
+		let plain = wrappers.iter().all(|w| *w == "[2]" || *w == "&");
+		let must_accept = valid && plain && (position < 2 || wrappers.first() == Some(&"&") || wrappers.is_empty());
+		let o = alpha::analyze_one(&src);
+		if let Some(e) = &o.internal_error
+		{
+			out.fail(format!("internal error {}", e.chars().take(50).collect::<String>()), json!({"source": src}));
+		}
+		else if !valid && o.ok
+		{
+			// one recorded finding: a view `[]T` is taken for an element type
+			// of known size; every other wrongly accepted shape is named exactly
+			let view_element = wrappers.windows(2).any(|w| w[0] != "&" && w[1] == "[]");
+			let class = if view_element { "a view `[]T` as element type".to_string() } else { shape.clone() };
+			out.fail(format!("invalid compound type accepted in {} position (E350 rule): {}", what, class), json!({"source": src, "type": ty}));
+		}
+		else if !valid && !o.codes.iter().any(|c| (350..=359).contains(c))
+		{
+			out.fail(
+				format!("invalid compound type in {} position rejected with {:?}, none of which is a type code: {}", what, o.codes, shape),
+				json!({"source": src, "type": ty, "codes": o.codes}),
+			);
+		}
+		else if must_accept && !o.ok
+		{
+			out.fail(
+				format!("valid compound type rejected in {} position {:?}: {}", what, o.codes, shape),
+				json!({"source": src, "type": ty, "codes": o.codes}),
+			);
+		}
+		else if valid && !must_accept
+		{
+			out.class("term:valid-but-position-not-settled");
+		}
+		if ctx.want_sample
+		{
+			out.sample = Some(json!({"type": ty, "position": what, "valid_by_E350_rule": valid, "accepted": o.ok}));
+		}
+		out
+	}
+}
+
 /// duplicates, over-filled words, non-constant array lengths, with random
 /// surroundings
 struct IllFormed;
@@ -810,6 +944,7 @@ impl Check for C11
 			Box::new(Permutations),
 			Box::new(Graphs),
 			Box::new(TypePositions),
+			Box::new(TypeTerms),
 			Box::new(IllFormed),
 		]
 	}
